@@ -95,6 +95,10 @@ pub trait Interface: ErrorHandler {
                     header = call_header;
                 }
             }
+            else {
+                // An empty program message unit consumed a terminator: reset the path as well.
+                header = self.root_node();
+            }
 
             input = i;
         }
